@@ -100,14 +100,58 @@ def sleepUntil (d now : Int) (pressure : Bool) (wake : Option Nat) (lag : Nat) :
     | some w => if now + w < d then ⟨now + w, false⟩ else ⟨d + lag, true⟩
     | none => ⟨d + lag, true⟩
 
+/-- The stages of one pass of `process_resource_event`/`process_resource_causes`. -/
 inductive Stage where
-  | indexing | watching | spawning
+  | indexing      -- `indexing.index_resource`
+  | watching      -- `process_watching_cause`: raw-event (`on.event`) handlers
+  | spawning      -- `process_spawning_cause`: daemons and timers are spawned / stopped
+  | barrier       -- the consistency block (may sleep)
+  | changing      -- `process_changing_cause`: change-detecting handlers
   deriving DecidableEq, Repr
+
+/-- The order in which the code runs them. -/
+def kopfOrder : List Stage := [.indexing, .watching, .spawning, .barrier, .changing]
+
+/-- The processor's running state while it goes through the stages: its clock, what it logged. -/
+structure PS where
+  clock : Int                    -- `loop.time()` so far
+  low : List (Stage × Int)       -- low-level stages entered so far, in order, with their start times
+  slept : Option Slept           -- the barrier sleep, if it was entered
+  decided : Option Bool          -- final `consistency_is_achieved`, once the barrier stage has run
+  entered : Option Int           -- `process_changing_cause` was entered (at this time)
+  deriving DecidableEq, Repr
+
+def PS.start (it : Iter) : PS :=
+  { clock := it.now, low := [], slept := none, decided := none, entered := none }
+
+/-- One stage, executed at the processor's current clock. Only the barrier reads `consistency_time`. -/
+def stepStage (deadline : Option Int) (it : Iter) (ps : PS) : Stage → PS
+  | .indexing => { ps with low := ps.low ++ [(Stage.indexing, ps.clock)] }
+  | .watching => { ps with low := ps.low ++ [(Stage.watching, ps.clock)], clock := ps.clock + it.dur }
+  | .spawning => { ps with low := ps.low ++ [(Stage.spawning, ps.clock)] }
+  | .barrier =>
+    let pre : Bool := deadline.isNone || it.gone
+    let slept : Option Slept :=
+      match deadline with
+      | some d =>
+        -- `required and not achieved and not patch and consistency_time` (0.0 is falsy)
+        if it.required && !pre && it.patchMid && decide (d ≠ 0)
+        then some (sleepUntil d ps.clock it.pressure it.wake it.lag) else none
+      | none => none
+    let ach1 : Bool := match slept with | some s => s.timedOut | none => pre
+    { ps with slept := slept, decided := some (ach1 && it.patchInit),
+              clock := match slept with | some s => s.tEnd | none => ps.clock }
+  | .changing =>
+    -- `if consistency_is_required and not consistency_is_achieved: return` precedes it
+    if it.required && ps.decided == some true then { ps with entered := some ps.clock } else ps
+
+def runStages (order : List Stage) (deadline : Option Int) (it : Iter) (ps : PS) : PS :=
+  order.foldl (stepStage deadline it) ps
 
 /-- What the processor decided in one iteration. -/
 structure Outcome where
   given : Option Int           -- `consistency_time` as passed in
-  low : List (Stage × Int)     -- the stages before the barrier, in code order, and when they start
+  low : List (Stage × Int)     -- the low-level stages in the order they were entered, and when
   slept : Option Slept          -- the barrier sleep, if it was entered
   achieved : Bool               -- final `consistency_is_achieved`
   held : Bool                   -- the early return was taken
@@ -115,26 +159,18 @@ structure Outcome where
   handlers : Option Int        -- … with a cause whose handlers can run (GONE has none: C05)
   deriving DecidableEq, Repr
 
-/-- The processor, as far as the barrier is concerned. -/
-def process (deadline : Option Int) (it : Iter) : Outcome :=
-  let t0 : Int := it.now + it.dur
-  let low := [(Stage.indexing, it.now), (Stage.watching, it.now), (Stage.spawning, t0)]
-  let pre : Bool := deadline.isNone || it.gone
-  let slept : Option Slept :=
-    match deadline with
-    | some d =>
-      -- `required and not achieved and not patch and consistency_time` (0.0 is falsy)
-      if it.required && !pre && it.patchMid && decide (d ≠ 0)
-      then some (sleepUntil d t0 it.pressure it.wake it.lag) else none
-    | none => none
-  let ach1 : Bool := match slept with | some s => s.timedOut | none => pre
-  let achieved := ach1 && it.patchInit
-  let tB : Int := match slept with | some s => s.tEnd | none => t0
-  let ran := it.required && achieved
-  { given := deadline, low := low, slept := slept, achieved := achieved,
-    held := it.required && !achieved,
-    entered := if ran then some tB else none,
-    handlers := if ran && !it.gone then some tB else none }
+def outcomeOf (deadline : Option Int) (it : Iter) (ps : PS) : Outcome :=
+  let achieved := ps.decided == some true
+  { given := deadline, low := ps.low, slept := ps.slept, achieved := achieved,
+    held := it.required && !achieved, entered := ps.entered,
+    handlers := if it.gone then none else ps.entered }
+
+/-- A processor that runs the stages in the given order. -/
+def processIn (order : List Stage) (deadline : Option Int) (it : Iter) : Outcome :=
+  outcomeOf deadline it (runStages order deadline it (PS.start it))
+
+/-- The processor: the stages in kopf's order. -/
+def process (deadline : Option Int) (it : Iter) : Outcome := processIn kopfOrder deadline it
 
 /-- `if newer_patch_version is not None and settings.persistence.consistency_timeout: …` -/
 def feedback (T : Int) (s : WState) (it : Iter) : WState :=
@@ -156,15 +192,22 @@ def idleTimeout (idle : Int) (deadline : Option Int) (now : Int) : Int :=
 inductive Step where
   | event (it : Iter)
   | retire (t : Int)     -- the idle wait timed out at `t` with an empty backlog
+  | background (q : Ver) (t : Int)
+      -- a daemon's or a timer's task of this object PATCHed it at `t` (its result / its progress) and got
+      -- version `q` back: `daemons._runner → application.apply`. The version goes to that task; the
+      -- object's worker is not told (nothing in `queueing.worker` or `processing` reads it).
   deriving DecidableEq, Repr
 
 def Step.ver : Step → Option Ver
   | .event it => it.ver
   | .retire _ => none
+  | .background _ _ => none
 
+/-- The version a step hands to the worker. -/
 def Step.patched : Step → Option Ver
   | .event it => it.patched
   | .retire _ => none
+  | .background _ _ => none
 
 /-- Worker state plus the clock (when the last step ended). -/
 structure Cfg where
@@ -177,6 +220,7 @@ def Cfg.init : Cfg := { s := WState.init, clock := 0 }
 def next (T : Int) (c : Cfg) : Step → Cfg
   | .event it => { s := (stepEvent T c.s it).1, clock := it.tret }
   | .retire t => { s := WState.init, clock := t }
+  | .background _ _ => c
 
 def exec (T : Int) (c : Cfg) (l : List Step) : Cfg := l.foldl (next T) c
 
@@ -188,6 +232,7 @@ def outcomes (T : Int) : Cfg → List Step → List Outcome
   | _, [] => []
   | c, .event it :: rest => outcomeAt T c it :: outcomes T (next T c (.event it)) rest
   | c, .retire t :: rest => outcomes T (next T c (.retire t)) rest
+  | c, .background _ _ :: rest => outcomes T c rest
 
 /-- Time sanity of one step: the clock does not run backwards, a PATCH is applied after the
     iteration began and before the processor returns (`tp` = `tret` by convention when nothing was
@@ -195,6 +240,7 @@ def outcomes (T : Int) : Cfg → List Step → List Outcome
 def okStep (idle : Int) (c : Cfg) : Step → Bool
   | .event it => decide (c.clock ≤ it.now) && decide (it.now ≤ it.tret) && decide (it.tp ≤ it.tret) && decide (it.now ≤ it.tp)
   | .retire t => decide (c.clock ≤ t) && decide (c.clock + idleTimeout idle c.s.deadline c.clock ≤ t)
+  | .background _ _ => true     -- another task: any time
 
 def wf (T idle : Int) : Cfg → List Step → Bool
   | _, [] => true
